@@ -12,6 +12,8 @@ type Case struct {
 	Choices []int    `json:"choices"`
 	Steps   []Step   `json:"steps"`
 	Stuck   string   `json:"stuck,omitempty"`
+	// Truncated: the step budget ran out (e.g. an endless restart loop scripted by the scenario)
+	Truncated bool `json:"truncated,omitempty"`
 }
 
 type Result struct {
@@ -48,6 +50,7 @@ func Execute(scn *Scenario, pick func(n int) int, maxSteps int) *Case {
 			exts = exts[1:]
 		}
 	}
+	c.Truncated = len(h.Steps) >= maxSteps
 	h.End()
 	c.Steps, c.Stuck = h.Steps, h.Stuck
 	return c
@@ -65,7 +68,7 @@ func Replay(c *Case) *Result {
 			i = n - 1
 		}
 		return i
-	}, 4000)
+	}, 600)
 	return &Result{Case: *got, Viol: Monitors(got)}
 }
 
@@ -92,7 +95,7 @@ func Main(f vh.Flags) {
 	for i := 0; i < n; i++ {
 		cr, _ := rng.Derive()
 		scn := Generate(cr)
-		c := Execute(scn, func(k int) int { return cr.Intn(k) }, 4000)
+		c := Execute(scn, func(k int) int { return cr.Intn(k) }, 600)
 		record(out, &Result{Case: *c, Viol: Monitors(c)})
 	}
 	out.Close()
